@@ -6,9 +6,9 @@
   sp80067/serpent` by composing, for each cipher, its C03 theorems (enc/dec succeed on byte blocks, keep the block
   format, invert each other) with its C02 refinement theorems (model enc/dec = the standard's function).
 
-  `LibCipher c k`: c is one of the library's block cipher objects (cipher + accepted key), k the standard it
-  implements with that key.  HOOK: Threefish — add a constructor once Model/Spec.Threefish and its C02/C03 theorems
-  are in the tree; `lib_implements` is the only proof that has to grow.
+  `LibCipher c k`: c is one of the library's block cipher objects (cipher + accepted key, for Threefish key + tweak),
+  k the standard it implements with that key.  One constructor per cipher; `lib_implements` is the only proof that grows
+  with the list (`lib_len` lists the block lengths: 8, 16 and Threefish's 32, 64, 128 bytes).
 -/
 import Proofs.Lemmas.ModePadL
 import Proofs.Lemmas.ModeCtr
@@ -20,6 +20,8 @@ import Proofs.C02_Des
 import Proofs.C03_Des
 import Proofs.C02_Serpent
 import Proofs.C03_Serpent
+import Proofs.C02_Threefish
+import Proofs.C03_Threefish
 namespace Proofs.Lemmas.ModeInst
 open Model Model.Mode Proofs.Lemmas.ModeL
 
@@ -285,6 +287,68 @@ theorem serpentShared_eq (K : List Nat) : Spec.ModeCiphers.serpentShared K = Spe
   · funext b; split <;> rfl
   · funext b; split <;> rfl
 
+/-! ### Threefish-256/512/1024 (Skein 1.3, section 3.3): keys of 32, 64, 128 bytes, tweaks of 16 bytes -/
+
+/-- the (key, tweak) pairs `Threefish(key,tweak)` accepts -/
+def ThreefishKey (K T : List Nat) : Prop :=
+  (K.length = 32 ∨ K.length = 64 ∨ K.length = 128) ∧ Bytes K ∧ T.length = 16 ∧ Bytes T
+
+/-- what the standard's functions return is a byte string -/
+theorem spec_threefish_bytes (K T b y : List Nat) :
+    (Spec.Threefish.enc K T b = some y → Bytes y) ∧ (Spec.Threefish.dec K T b = some y → Bytes y) := by
+  unfold Spec.Threefish.enc Spec.Threefish.dec
+  constructor <;> intro h <;> split at h
+  · cases h; exact Proofs.Lemmas.TfBytes.isBytes_wordsToBytes _
+  · cases h
+  · cases h; exact Proofs.Lemmas.TfBytes.isBytes_wordsToBytes _
+  · cases h
+
+theorem threefish_implements (K T : List Nat) (hK : ThreefishKey K T) :
+    Implements (Ciphers.threefish K T) (Spec.ModeCiphers.threefish K T) := by
+  obtain ⟨hl, hk, htl, ht⟩ := hK
+  have hk' : Proofs.Lemmas.TfBytes.IsBytes K := hk
+  have ht' : Proofs.Lemmas.TfBytes.IsBytes T := ht
+  exact implements_of_refines (Ciphers.threefish K T) K.length (Spec.Threefish.enc K T) (Spec.Threefish.dec K T) rfl
+    (by show 0 < K.length; omega)
+    (fun b hb => by
+      have hb' : Proofs.Lemmas.TfBytes.IsBytes b := hb.2
+      have hr := Proofs.C03_Threefish.dec_enc K T b hk' ht' hb' ⟨hl, htl, hb.1⟩
+      have he := Proofs.C02_Threefish.enc_refines K T b hk' ht' hb'
+      show ∃ y, Threefish.encrypt K T b = .ok y ∧ IsBlock K.length y ∧ Threefish.decrypt K T y = .ok b
+      cases hy : Threefish.encrypt K T b with
+      | error e => rw [hy] at hr; cases hr
+      | ok y =>
+        rw [hy] at hr he
+        have hlen := Proofs.C03_Threefish.enc_length K T b y hk' ht' hb' hy
+        exact ⟨y, rfl, ⟨hlen.trans hb.1, (spec_threefish_bytes K T b y).1 he.symm⟩, hr⟩)
+    (fun b hb => by
+      have hb' : Proofs.Lemmas.TfBytes.IsBytes b := hb.2
+      have hr := Proofs.C03_Threefish.enc_dec K T b hk' ht' hb' ⟨hl, htl, hb.1⟩
+      have he := Proofs.C02_Threefish.dec_refines K T b hk' ht' hb'
+      show ∃ y, Threefish.decrypt K T b = .ok y ∧ IsBlock K.length y ∧ Threefish.encrypt K T y = .ok b
+      cases hy : Threefish.decrypt K T b with
+      | error e => rw [hy] at hr; cases hr
+      | ok y =>
+        rw [hy] at hr he
+        have hlen := Proofs.C03_Threefish.dec_length K T b y hk' ht' hb' hy
+        exact ⟨y, rfl, ⟨hlen.trans hb.1, (spec_threefish_bytes K T b y).2 he.symm⟩, hr⟩)
+    (fun b hb => Proofs.C02_Threefish.enc_refines K T b hk' ht' hb.2)
+    (fun b hb => Proofs.C02_Threefish.dec_refines K T b hk' ht' hb.2)
+
+/-- the object built by the constructor (extended key and tweak words computed once, `blocksize` read from `K.size`) is
+    the cipher the theorems speak about -/
+theorem threefish_ctor (K T : List Nat) (hK : ThreefishKey K T) : Ciphers.threefish? K T = .ok (Ciphers.threefish K T) := by
+  obtain ⟨hl, hk, htl, ht⟩ := hK
+  obtain ⟨c, hc, hsz, _⟩ := Proofs.Lemmas.TfEnd.init_rel K T hk ht hl htl
+  unfold Ciphers.threefish?
+  simp only [hc]
+  congr 1
+  unfold Ciphers.threefishObj Ciphers.threefish
+  congr 1
+  · rw [hsz]; omega
+  · funext b; simp only [Threefish.encrypt, hc, bind, Except.bind]
+  · funext b; simp only [Threefish.decrypt, hc, bind, Except.bind]
+
 /-! ### the block ciphers of the library -/
 
 /-- `LibCipher c k`: `c` is a block cipher object of the library built with an accepted key (what a user passes to
@@ -299,7 +363,8 @@ inductive LibCipher : BlockCipher → Spec.Mode.Cipher → Prop
       TdeaKey K1 K2 K3 ko → LibCipher (Ciphers.tdea K1 K2 K3) (Spec.ModeCiphers.sp80067 ko)
   /-- `Serpent(K)`, |K| ≤ 32: the Serpent submission (short keys padded as it prescribes) -/
   | serpent (K : List Nat) : SerpentKey K → LibCipher (Ciphers.serpent K) (Spec.ModeCiphers.serpent K)
-  -- HOOK | threefish (K T : List Nat) : ThreefishKey K T → LibCipher (Ciphers.threefish K T) (Spec.ModeCiphers.threefish K T)
+  /-- `Threefish(K,T)`, |K| ∈ {32, 64, 128}, |T| = 16: Threefish-256/512/1024 of Skein 1.3 with that key and tweak -/
+  | threefish (K T : List Nat) : ThreefishKey K T → LibCipher (Ciphers.threefish K T) (Spec.ModeCiphers.threefish K T)
 
 theorem lib_implements {c : BlockCipher} {k : Spec.Mode.Cipher} (h : LibCipher c k) : Implements c k := by
   cases h with
@@ -307,10 +372,18 @@ theorem lib_implements {c : BlockCipher} {k : Spec.Mode.Cipher} (h : LibCipher c
   | des K hK => exact des_implements K hK
   | tdea K1 K2 K3 ko hK => exact tdea_implements K1 K2 K3 ko hK
   | serpent K hK => exact serpent_implements K hK
+  | threefish K T hK => exact threefish_implements K T hK
 
-/-- the block length of a library cipher is 8 or 16 bytes: every padding scheme is admissible -/
-theorem lib_len {c : BlockCipher} {k : Spec.Mode.Cipher} (h : LibCipher c k) : c.len = 8 ∨ c.len = 16 := by
-  cases h <;> simp [Ciphers.aes, Ciphers.des, Ciphers.tdea, Ciphers.serpent]
+/-- the block length of a library cipher is 8 or 16 bytes, or 32 / 64 / 128 bytes for Threefish-256/512/1024: below 256
+    (every padding scheme is admissible) and even (the default counter has two halves of 4 / 8 / 16 / 32 / 64 bytes) -/
+theorem lib_len {c : BlockCipher} {k : Spec.Mode.Cipher} (h : LibCipher c k) :
+    c.len = 8 ∨ c.len = 16 ∨ c.len = 32 ∨ c.len = 64 ∨ c.len = 128 := by
+  cases h with
+  | threefish K T hK =>
+    have := hK.1
+    show K.length = 8 ∨ K.length = 16 ∨ K.length = 32 ∨ K.length = 64 ∨ K.length = 128
+    omega
+  | _ => simp [Ciphers.aes, Ciphers.des, Ciphers.tdea, Ciphers.serpent]
 
 /-- the admissible (padding, message) pairs for a library cipher: a padding scheme takes every message, `nopadding` the
     non-empty block multiples (the bound l < 256 of PKCS#7 / X9.23 holds for every block length of the library) -/
